@@ -98,8 +98,15 @@ func Load(repoDir, overlayRoot string, patterns []string, goBin string) (*Loaded
 	prog, spkgs := ssautil.AllPackages(pkgs, ssa.InstantiateGenerics)
 	prog.Build()
 	l := &Loaded{P: &Program{Prog: prog, Sizes: types.SizesFor("gc", "amd64"), Redirects: map[string]*ssa.Function{}}, Pkgs: pkgs, FuncSrc: map[string]string{}}
-	for idx, p := range pkgs {
-		sp := spkgs[idx]
+	_ = spkgs
+	var all []*packages.Package
+	packages.Visit(pkgs, nil, func(p *packages.Package) {
+		if strings.HasPrefix(p.PkgPath, "go.sia.tech/coreutils") {
+			all = append(all, p)
+		}
+	})
+	for _, p := range all {
+		sp := prog.Package(p.Types)
 		if sp == nil {
 			continue
 		}
